@@ -59,7 +59,9 @@ Value gen_api(uint64_t seed, const std::string& tier)
     o.pre        = g.range(0, 3);
     o.post       = g.range(0, 3);
     o.max_levels = g.chance(0.4) ? -1 : g.range(1, 6);
-    bound_cost(o, 65L * 128L + 1, 2600);
+    if (o.aniso >= 3 && g.chance(0.5))
+        o.nr_exp = 5; // deep hierarchies of anisotropic grids reach levels with an even number of radii
+    bound_cost(o, 15000, 2600); // (nr_exp 5 with anisotropic factor 4 is 81x128: hierarchies with an even coarse nr)
     o.abs_tol    = g.chance(0.3) ? -1.0 : (g.chance(0.5) ? 1e-8 : 1e-4);
     o.rel_tol    = g.chance(0.3) ? -1.0 : (g.chance(0.5) ? 1e-8 : 1e-4);
     o.max_iterations = g.chance(0.15) ? 0 : (g.chance(0.3) ? g.range(1, 4) : 40);
